@@ -121,3 +121,27 @@ def run_schedule(inst, choices=(), fault=None, record_only=False):
     obs.barrier_returns = list(b.wait_returns) if b else []
     obs.processes = sch.slots
     return obs
+
+
+def filter_image_sim(im_name, out_base=None, **kw):
+    """the real BANE.filter_image with the pool / shared memory simulated in-process (default schedule, no fork);
+    returns ('ok', (bkg, rms)) | ('deadlock', msg) | ('raised', exc)"""
+    import logging
+    logging.disable(logging.CRITICAL)
+    sch = S.Scheduler(())
+    fmp = S.FakeMultiprocessing(sch)
+    FakeSharedMemory.registry = {}
+    BANE.multiprocessing = fmp
+    BANE.SharedMemory = FakeSharedMemory
+    aegean_verif_hooks.handler = None
+    try:
+        try:
+            r = BANE.filter_image(im_name, out_base, **kw)
+            return "ok", r
+        except S.Deadlock as e:
+            return "deadlock", str(e)
+        except Exception as e:
+            return "raised", e
+    finally:
+        BANE.multiprocessing = REAL_MP
+        BANE.SharedMemory = REAL_SHM
